@@ -207,6 +207,9 @@ func emitMS(c *hlib.Ctx, s model2d.Solid, delta float64, big bool, c2f []float64
 		emitCase(c, opBase+" "+st.tag, "corr:c12 ms/"+fnOf(st.tag), func() string { return l.meshHash(st.run()) })
 		c.Stat("c12.ms.cases", 1)
 	}
+	if !big {
+		emitMSSearch(c, s, l, delta, fmt.Sprintf("n=%d,%d bits=%s family=%s delta=%v", len(xs), len(ys), bitStr(l.bits), family, delta))
+	}
 }
 
 func randVoxel2(c *hlib.Ctx, n [2]int, v float64) *voxel2 {
